@@ -49,6 +49,14 @@ def build(rng, nops):
             g = rng.choice(GROUPS) if rng.random() < 0.85 else gen.rname(rng, 5, False)
             lines.append('param 0 ' + hx(g)); lines.append('snap 0')
             kinds['param'] = kinds.get('param', 0) + 1
+            if rng.random() < 0.35:
+                # replace it at once by a parameter of the same name whose lock flag (and possibly type) differs:
+                # the look-up must return the GIVEN lock state, not the previous occupant's
+                lines.append('P.new %s %s' % (hx(name), hx(b'again')))
+                lines.append(gen_set(rng)[0])
+                lines.append(rng.choice(['P.lock', 'P.unlock', 'P.unlock']))
+                lines.append('param 0 ' + hx(g)); lines.append('snap 0')
+                kinds['replace-same-name-other-lock'] = kinds.get('replace-same-name-other-lock', 0) + 1
         elif r < 0.85:
             g = rng.choice(GROUPS + [b'NOPE'])
             lines.append('%s 0 %s' % (rng.choice(['lock', 'unlock']), hx(g))); lines.append('snap 0')
